@@ -377,6 +377,19 @@ def proof_obligations(ctx, pid=None, extra_props=()):
         "checker_cmd": "make -C /verif/coq -j16 theories/Properties/%s.vo (coq_makefile, full .vo build of the file and all its dependencies) && coqc -Q theories PegV theories/Properties/%s.v" % (pid, pid),
         "trusted_base": list(TRUSTED_BASE),
     })
+    if ctx.tier == "thorough" and ok and not broken:
+        # the independent checker re-checks the compiled property file and everything it depends on
+        with Lock("coq"):
+            rc, out, err = run(["coqchk", "-silent", "-o", "-Q", "theories", "PegV", "PegV.Properties.%s" % pid], cwd=COQ, timeout=3000)
+        summ = (out + err)
+        i = summ.find("CONTEXT SUMMARY")
+        summ = re.sub(r"\s+", " ", summ[i:] if i >= 0 else summ[-600:]).strip()
+        ctx.coverage["coqchk"] = {"cmd": "coqchk -silent -o -Q theories PegV PegV.Properties.%s" % pid, "rc": rc, "summary": summ[:900]}
+        if rc != 0 or "Axioms: <none>" not in summ:
+            if rc != 0:
+                broken.append("coqchk does not accept Properties/%s.vo (rc=%s): %s" % (pid, rc, summ[-600:]))
+            else:
+                ctx.assumptions.append("coqchk lists axioms: " + summ[:600])
     if not ctx.assumptions:
         ctx.assumptions.append("all property theorems: Closed under the global context (no axioms)")
     return broken
